@@ -331,6 +331,10 @@ pub fn structural_damage(img: &mut Image, rng: &mut Rng) -> Option<Value> {
                 "wal-0000000000000000001", "wal-000000000000000000011", "wal-0000000000000000000a", "WAL-00000000000000000001",
                 "wal_00000000000000000001", "wal-99999999999999999999", ".wal-00000000000000000001", "wal-00000000000000000001\n",
                 "wal-\u{0661}\u{0662}\u{0663}\u{0664}\u{0665}\u{0666}\u{0667}\u{0668}\u{0669}\u{0660}", "readme.txt", "wal-", "lock",
+                // 24-byte valid UTF-8 names with a multi-byte character across byte offset 4 / 3 / 5
+                "wal\u{e9}0000000000000000001", "wa\u{8a9e}0000000000000000002", "w\u{1F980}0000000000000000003",
+                "\u{65e5}\u{672c}\u{8a9e}\u{306e}\u{30e1}\u{30e2}01.txt", "wal-\u{e9}000000000000000001", "wal-0000000000000000001.", "wal-00000000000000000000.bak",
+                "wal-18446744073709551616", "wal-+0000000000000000001", "wal-0000000000000000000 ",
             ]);
             let mut g = vec![0u8; rng.usize(0, 2 * BLOCK)];
             rng.fill(&mut g);
